@@ -289,9 +289,20 @@ def check_reserved_tables(rep):
                 todo.append(l.node.id)
     inner = core.const('_INNER_NAME')
     injected[inner] = '_INNER_NAME'
-    tmpl = core.const('_REQ_INNER_TMPL')
-    if 'context = endpoint(' in tmpl:
-        injected['context'] = '_REQ_INNER_TMPL'
+    # the request core binds the endpoint result to the local ``context`` which render functions then receive by name
+    import textwrap
+    from .. import codegen
+    te = codegen.TemplateEval(repo, core.func('_create_request_inner')).run()
+    for k in te.sinks:
+        code = k['kw'].get('code_str', k['args'][0] if k['args'] else None)
+        if k['name'] == 'compile_code' and isinstance(code, codegen.Tmpl):
+            try:
+                tree = ast.parse(textwrap.dedent(codegen.render(code.parts).text))
+            except (SyntaxError, AnalysisError):
+                continue
+            for n in ast.walk(tree):
+                if isinstance(n, ast.Assign) and isinstance(n.value, ast.Call) and any(isinstance(t, ast.Name) and t.id == 'context' for t in n.targets):
+                    injected['context'] = 'the generated request core (%s = %s(...))' % ('context', norm(n.value.func))
     for name, src in sorted(injected.items()):
         rep.check('R04.b', '%s::RESERVED_ARGS::%s' % (ROUTE, name), name in reserved,
                   "built-in '%s' (injected by %s) is reserved" % (name, src) if name in reserved else
